@@ -74,7 +74,21 @@ let h_mkfmt args : fail list =
        | None -> q "C14" false (fun () -> "the reproduced format does not parse as one directive: " ^ hb (bts out)))
   | _ -> failwith "mkfmt: bad line"
 
+(* util.go Join: the model's join (builder + one Print per element and delimiter, the function
+   JoinP.join_is_concatenation is about) against the implementation's result *)
+let h_kjoin args : fail list =
+  match args with
+  | [d; L es; out; info] ->
+    incr nontrivial;
+    (match join (nat_of_int 40) { orc = []; hook = None } (bts d) (List.map bts es) with
+     | ROk o ->
+       k "join" (o.o_bytes = bts out)
+         (fun () -> Printf.sprintf "Join: model=%s impl=%s input: %s" (hb o.o_bytes) (hb (bts out)) (text info))
+     | _ -> k "join" false (fun () -> "Join: the model does not return a value on " ^ text info))
+  | _ -> failwith "kjoin: bad line"
+
 let () =
+  Hashtbl.replace handlers "kjoin" h_kjoin;
   Hashtbl.replace handlers "qeq" h_qeq;
   Hashtbl.replace handlers "qpred" h_qpred;
   Hashtbl.replace handlers "qtrue" h_qtrue;
